@@ -26,6 +26,8 @@ MODULE_MC = 'OVMTetHexMC.tla'
 MODULE_TRACE = 'OVMTetHexTrace.tla'
 EXE = 'tethex_exec'
 DEL = ['delete_vertex', 'delete_edge', 'delete_face', 'delete_cell']
+# parallelism (TLC workers, executor / validator processes); default: all cores
+NPAR = int(os.environ.get('VERIF_WORKERS', vlib.NCPU))
 
 # ---------------------------------------------------------------------------
 # per property: TLC configurations (explored exhaustively, every transition
@@ -43,7 +45,7 @@ CHECKS = {
                  TargetOps=['collapse_edge', 'collect_garbage'], q=1, sample=2500),
             # additions, accepted and rejected (valence guards, open lists, reuse of halfedges / halffaces)
             dict(name='additions', Depth=1, SeedIds=[1, 2, 8], Modes='ModesDefault', HistOps=[],
-                 TargetOps=['add_face3', 'add_face_v3', 'add_cell4', 'tet_add_cell_4', 'tet_add_cell_v', 'tet_add_cell_new'],
+                 TargetOps=['add_face3', 'add_face_v3', 'add_cell4', 'tet_add_cell_4', 'tet_add_cell_v', 'tet_add_cell_v_taken', 'tet_add_cell_new'],
                  q=1, sample=2000),
             # TetTopology / TriangleTopology for every constructor form and all labels
             dict(name='labels', Depth=1, SeedIds=[1, 2, 3, 5, 8, 9], Modes='ModesDefault', HistOps=[],
@@ -54,7 +56,7 @@ CHECKS = {
                  HistOps=['collapse_edge', 'delete_cell', 'delete_vertex', 'collect_garbage'],
                  TargetOps=['collapse_edge', 'collect_garbage', 'delete_face', 'delete_edge'], q=1, sample=60000),
             dict(name='additions', Depth=2, SeedIds=[1, 2, 5, 8], Modes='ModesAll', HistOps=['delete_cell', 'delete_face', 'collapse_edge'],
-                 TargetOps=['add_face3', 'add_face_v3', 'add_cell4', 'tet_add_cell_4', 'tet_add_cell_v', 'tet_add_cell_new'],
+                 TargetOps=['add_face3', 'add_face_v3', 'add_cell4', 'tet_add_cell_4', 'tet_add_cell_v', 'tet_add_cell_v_taken', 'tet_add_cell_new'],
                  q=1, sample=30000),
             dict(name='splits', Depth=3, SeedIds=[1, 2, 3, 5, 6], Modes='ModesAll', HistOps=['add_vertex', 'split_edge', 'split_face'],
                  TargetOps=['split_edge', 'split_face', 'collapse_edge', 'collect_garbage'], q=1, sample=20000),
@@ -135,7 +137,7 @@ def run_tlc(cfgpath, workdir, workers=None, simulate=None, timeout=7200, heap='8
     meta = os.path.join(workdir, 'meta-' + os.path.basename(cfgpath))
     shutil.rmtree(meta, ignore_errors=True)
     cmd = ['java', '-XX:+UseSerialGC' if simulate else '-XX:+UseParallelGC', '-Xmx' + heap, '-Xss16m', '-cp', vlib.JAR, 'tlc2.TLC',
-           '-workers', str(workers or vlib.NCPU), '-metadir', meta, '-noGenerateSpecTE', '-config', cfgpath]
+           '-workers', str(workers or NPAR), '-metadir', meta, '-noGenerateSpecTE', '-config', cfgpath]
     if simulate:
         cmd += ['-simulate', 'num=%d' % simulate['num'], '-depth', str(simulate['depth']), '-seed', str(simulate['seed'])]
     cmd += [MODULE_MC]
@@ -229,7 +231,7 @@ def exec_and_validate(variant, scripts, props, workdir, tag):
         v = run_validate(mg, props, workdir)
         return dict(script=sp, trace=mg, info=info, val=v, err=raw + '.err')
 
-    with ThreadPoolExecutor(max_workers=vlib.NCPU) as ex:
+    with ThreadPoolExecutor(max_workers=NPAR) as ex:
         res = list(ex.map(one, range(len(scripts))))
     agg = dict(lines=0, checked=0, bad=0, drift=0, failures=[], crashes=[], drifts=[], info={})
     for r in res:
@@ -288,7 +290,7 @@ def signature(f):
 def write_replay(prop, kind_mesh, failure, opts):
     """A linear, self-contained script reproducing one failing step."""
     os.makedirs(os.path.join(vlib.RUN, 'replay'), exist_ok=True)
-    lines = vlib.script_prefix_for(failure['script'], failure['x']) if failure.get('script') else []
+    lines = vlib.script_prefix_for(failure['script'], failure.get('x', 0)) if failure.get('script') else []
     if not lines:
         lines = ['R %s %s' % (kind_mesh, opts)]
     body = list(lines)
@@ -322,36 +324,38 @@ def selftest(prop, kind, work, variant):
     L0 = [json.loads(x) for x in open(base)]
 
     def swap(a, i, j): a[i], a[j] = a[j], a[i]
+    P = next(i for i, d in enumerate(L0) if d['e'] == 'pre' and 'q' in d)      # seed state with query answers
+    C = next(i for i, d in enumerate(L0) if d['e'] == 'call')                  # the checked call
     if kind == 'tet':
-        deep = lambda L: [x for x in L[1]['q']['topo'] if x['deep']][1]
-        muts = [lambda L: swap(L[1]['q']['cells'][0]['gcv'], 0, 1),
-                lambda L: L[1]['q']['cells'][0]['gcv_v'][3].__setitem__(1, [3, 0, 1, 2]),
-                lambda L: swap(L[1]['q']['cells'][0]['gcv_hfhe'][4][2], 1, 2),
-                lambda L: L[1]['q']['topo'][5]['hfh'].__setitem__('BDC', L[1]['q']['topo'][5]['hfh']['ABC']),
+        deep = lambda L: [x for x in L[P]['q']['topo'] if x['deep']][1]
+        muts = [lambda L: swap(L[P]['q']['cells'][0]['gcv'], 0, 1),
+                lambda L: L[P]['q']['cells'][0]['gcv_v'][3].__setitem__(1, [3, 0, 1, 2]),
+                lambda L: swap(L[P]['q']['cells'][0]['gcv_hfhe'][4][2], 1, 2),
+                lambda L: L[P]['q']['topo'][5]['hfh'].__setitem__('BDC', L[P]['q']['topo'][5]['hfh']['ABC']),
                 lambda L: deep(L)['tri']['ACB']['h'].__setitem__(0, deep(L)['tri']['ACB']['h'][0] ^ 1),
                 lambda L: deep(L)['glhe'][0].__setitem__(1, 'BC'),
-                lambda L: L[2]['post']['cells'].__setitem__(1, [7, 8, 10, 13]),
-                lambda L: L[2].__setitem__('ret', 2),
-                lambda L: L[1]['q']['hov'][7].__setitem__(1, 1),
-                lambda L: L[1]['q']['cells'][0].__setitem__('tv', [0, 1, 3, 2]),
-                lambda L: L[2]['post']['faces'].__setitem__(3, [11, 7, 3, 5])]
+                lambda L: L[C]['post']['cells'].__setitem__(1, [7, 8, 10, 13]),
+                lambda L: L[C].__setitem__('ret', 2),
+                lambda L: L[P]['q']['hov'][7].__setitem__(1, 1),
+                lambda L: L[P]['q']['cells'][0].__setitem__('tv', [0, 1, 3, 2]),
+                lambda L: L[C]['post']['faces'].__setitem__(3, [11, 7, 3, 5])]
     else:
-        muts = [lambda L: swap(L[1]['q']['cells'][0]['hv'], 4, 5),
-                lambda L: L[1]['q']['orth'][0].__setitem__(2, 5),
-                lambda L: L[1]['q']['cells'][1]['csc'].__setitem__(0, []),
-                lambda L: L[1]['q']['hfshf'][0].__setitem__(1, [14]),
-                lambda L: swap(L[1]['post']['cells'][1], 2, 4),
-                lambda L: L[1]['q']['cells'][0]['ori'][1].__setitem__(1, 3),
-                lambda L: L[1]['q']['cells'][0]['opp'][0].__setitem__(1, 4),
-                lambda L: L[1]['q']['cells'][0].__setitem__('yf', L[1]['q']['cells'][0]['yb']),
-                lambda L: swap(L[2]['post']['cells'][1], 0, 1)]
+        muts = [lambda L: swap(L[P]['q']['cells'][0]['hv'], 4, 5),
+                lambda L: L[P]['q']['orth'][0].__setitem__(2, 5),
+                lambda L: L[P]['q']['cells'][1]['csc'].__setitem__(0, []),
+                lambda L: L[P]['q']['hfshf'][0].__setitem__(1, [14]),
+                lambda L: swap(L[P]['post']['cells'][1], 2, 4),
+                lambda L: L[P]['q']['cells'][0]['ori'][1].__setitem__(1, 3),
+                lambda L: L[P]['q']['cells'][0]['opp'][0].__setitem__(1, 4),
+                lambda L: L[P]['q']['cells'][0].__setitem__('yf', L[P]['q']['cells'][0]['yb']),
+                lambda L: swap(L[C]['post']['cells'][1], 0, 1)]
     paths = []
     for i, mu in enumerate(muts):
         L = copy.deepcopy(L0); mu(L)
         p = os.path.join(work, 'selftest-m%d.ndjson' % i)
         open(p, 'w').write('\n'.join(json.dumps(x, separators=(',', ':')) for x in L) + '\n')
         paths.append(p)
-    with ThreadPoolExecutor(max_workers=vlib.NCPU) as ex:
+    with ThreadPoolExecutor(max_workers=NPAR) as ex:
         base_res = run_validate(base, [prop], work)
         res = list(ex.map(lambda p: run_validate(p, [prop], work), paths))
     killed = sum(1 for r in res if r['done']['bad'] > 0)
@@ -395,8 +399,11 @@ def run_check(prop, tier, seed, replay=None):
     else:
         import random
         rnd = random.Random(seed)
+        only = [x for x in os.environ.get('VERIF_ONLY', '').split(',') if x]      # development: restrict to named configurations
         for n, mc in enumerate(cfg[tier]):
             c = dict(mc)
+            if only and c['name'] not in only:
+                continue
             cp = os.path.join(work, 'mc%d.cfg' % n)
             write_cfg(cp, c, kind)
             r = run_tlc(cp, work)
@@ -419,7 +426,7 @@ def run_check(prop, tier, seed, replay=None):
             if not trans:
                 continue
             opts = 'props=1 q=%d' % c.get('q', 1)
-            scripts = vlib.tree_scripts(r['orgs'], trans, opts, vlib.NCPU * 2, mesh=kind)
+            scripts = vlib.tree_scripts(r['orgs'], trans, opts, NPAR * 2, mesh=kind)
             if len(cov['samples']) < 4:
                 k, p = trans[len(trans) // 2]
                 cov['samples'].append(dict(config=c['name'], seed_and_modes=list(k), calls=p))
@@ -428,13 +435,13 @@ def run_check(prop, tier, seed, replay=None):
                 (prop, c['name'], agg['lines'], agg['checked'], agg['bad'], agg['drift'], len(agg['crashes']), json.dumps(agg['info'])))
             absorb(agg)
         sim = cfg.get('sim')
-        if sim:
+        if sim and not (only and 'random' not in only):
             num, depth = sim[tier]['num'], sim[tier]['depth']
             c = dict(name='random', Depth=depth + 1, SeedIds=sim[tier]['SeedIds'], HistOps=sorted(set(sim['ops'])), TargetOps=[], Modes='ModesAll')
             cp = os.path.join(work, 'sim.cfg')
             write_cfg(cp, c, kind, sim=True)
             # several independent simulation runs (TLC simulation is single-threaded)
-            nproc = min(8, max(1, num // 3))
+            nproc = min(8, NPAR, max(1, num // 3))
             per = (num + nproc - 1) // nproc
             with ThreadPoolExecutor(max_workers=nproc) as ex:
                 runs = list(ex.map(lambda i: run_tlc(cp, os.path.join(work, 'sim%d' % i), workers=1,
@@ -452,7 +459,7 @@ def run_check(prop, tier, seed, replay=None):
                                          org=mb.get('script'), detail=json.dumps(mb)))
             scripts = [vlib.linear_script(h['script'] + h['path'], 'props=1 q=%d' % sim['q'], mesh=kind, silent_prefix=len(h['script']))
                        for h in hist]
-            nsh = vlib.NCPU
+            nsh = NPAR
             shards = [''.join(scripts[i::nsh]) for i in range(nsh) if scripts[i::nsh]]
             if shards:
                 agg = exec_and_validate('plain', shards, cfg['props'], work, 'r')
